@@ -6,7 +6,9 @@
                    the bytes reach the disk whenever the buffer spills, i.e. the disk holds an arbitrary prefix.
    mode "stream" : stream saving (Save.request/response/tcp_end/... -> save_flow -> FilteredFlowWriter.add):
                    fo.write(dumps(state)); fo.flush() in one critical section: after a finishing hook returns the
-                   disk holds the whole record.  Save.done() writes the still-active flows and closes.
+                   disk holds the whole record.  Save.done() writes the still-active flows and closes.  Streaming is
+                   switched on by an option update (OpenStream), may be stopped (Done) and resumed in append mode;
+                   flows may start while it is off (not tracked) and may complete twice (response, then error).
    A record is 6 abstract units long: digits [0,2) colon 2 payload [3,5) tag 5; record i of the stream ends at 6*i.
    Crash(n, part): the file is cut after n complete records, inside part `part` of record n+1 ("boundary": none).
    Recover mirrors FlowReader.stream/tnetstring.load on the cut image: n flows, then
@@ -15,9 +17,9 @@
        after_colon/payload/tag -> file_handle.read(1)[0] at EOF -> IndexError -> outer handler
    OuterMapped: the classes the outer handler of FlowReader.stream turns into FlowReadException.              *)
 EXTENDS Mon_FlowCrash, TLC
-CONSTANTS Kinds, Modes, MaxFlows, MaxCrash, OuterMapped
-VARIABLES mode, flows, stream, ondisk, open, cut, ncrash, nid, mon, obs
-vars == <<mode, flows, stream, ondisk, open, cut, ncrash, nid, mon, obs>>
+CONSTANTS Kinds, Modes, MaxFlows, MaxCrash, MaxOpen, AllowRefinish, OuterMapped
+VARIABLES mode, flows, stream, ondisk, open, nopen, cut, ncrash, nid, mon, obs
+vars == <<mode, flows, stream, ondisk, open, nopen, cut, ncrash, nid, mon, obs>>
 \* flows  : sequence of [s, t, st] (st: "active" | "finished"), stream-mode flows in the order of their start hook
 \* stream : sequence of [s, t]: the records handed to the file object so far, in order (the logical byte stream)
 \* ondisk : number of records of `stream` that are certainly on disk (flushed)
@@ -27,7 +29,7 @@ Parts == {"boundary", "digits", "colon", "after_colon", "payload", "tag"}
 Code(p) == CASE p = "boundary" -> 0 [] p = "digits" -> 1 [] p = "colon" -> 2 [] p = "after_colon" -> 3
              [] p = "payload" -> 4 [] p = "tag" -> 5
 
-Init == /\ mode \in Modes /\ flows = <<>> /\ stream = <<>> /\ ondisk = 0 /\ open = TRUE /\ cut = <<>>
+Init == /\ mode \in Modes /\ flows = <<>> /\ stream = <<>> /\ ondisk = 0 /\ open = (mode = "save") /\ nopen = 0 /\ cut = <<>>
         /\ ncrash = 0 /\ nid = 0 /\ mon = MonInit /\ obs = <<>>
 Emit(evs) == obs' = evs /\ mon' = FoldEvents(MonStep, mon, evs)
 Live == mon.bad = <<>>
@@ -39,57 +41,82 @@ DiskEv(n) == [k |-> "disk", ids |-> Ids(SubSeq(stream', 1, n)), end |-> "clean",
 SaveAdd(t) ==
   /\ Live /\ mode = "save" /\ open /\ cut = <<>> /\ Len(stream) < MaxFlows /\ ncrash = 0
   /\ stream' = Append(stream, [s |-> nid + 1, t |-> t]) /\ nid' = nid + 1
-  /\ UNCHANGED <<mode, flows, ondisk, open, cut, ncrash>>
+  /\ UNCHANGED <<mode, flows, ondisk, open, nopen, cut, ncrash>>
   /\ Emit(<<[k |-> "written", s |-> nid + 1, t |-> t, to |-> 6 * (Len(stream) + 1)]>>)
 
 \* with-block exit: close() flushes everything
 SaveClose ==
   /\ Live /\ mode = "save" /\ open /\ cut = <<>> /\ Len(stream) > 0 /\ ncrash = 0
   /\ open' = FALSE /\ ondisk' = Len(stream)
-  /\ UNCHANGED <<mode, flows, stream, cut, ncrash, nid>>
+  /\ UNCHANGED <<mode, flows, stream, nopen, cut, ncrash, nid>>
   /\ Emit(<<>>)
 
-\* Save.request / tcp_start / udp_start / dns_request: active_flows.add(flow); nothing is written
+\* options update: save_stream_file set (first time "path", after a stop "+path"): maybe_rotate_to_new_file opens the file
+OpenStream ==
+  /\ Live /\ mode = "stream" /\ ~open /\ nopen < MaxOpen /\ cut = <<>> /\ ncrash = 0
+  /\ open' = TRUE /\ nopen' = nopen + 1
+  /\ UNCHANGED <<mode, flows, stream, ondisk, cut, ncrash, nid>>
+  /\ Emit(<<[k |-> "hook", name |-> IF nopen = 0 THEN "open" ELSE "resume"], DiskEv(Len(stream))>>)
+
+\* Save.request / tcp_start / udp_start / dns_request: `if self.stream: active_flows.add(flow)`; nothing is written.
+\* While streaming is off (before it is enabled, or between a stop and a resume) the flow is NOT tracked ("early").
 Start(t) ==
-  /\ Live /\ mode = "stream" /\ open /\ cut = <<>> /\ Len(flows) < MaxFlows /\ ncrash = 0
-  /\ flows' = Append(flows, [s |-> nid + 1, t |-> t, st |-> "active"]) /\ nid' = nid + 1
-  /\ UNCHANGED <<mode, stream, ondisk, open, cut, ncrash>>
-  /\ Emit(<<[k |-> "hook", name |-> "start"], DiskEv(ondisk)>>)
+  /\ Live /\ mode = "stream" /\ cut = <<>> /\ Len(flows) < MaxFlows /\ ncrash = 0
+  /\ flows' = Append(flows, [s |-> nid + 1, t |-> t, st |-> IF open THEN "active" ELSE "early"]) /\ nid' = nid + 1
+  /\ UNCHANGED <<mode, stream, ondisk, open, nopen, cut, ncrash>>
+  /\ Emit(<<[k |-> "hook", name |-> IF open THEN "start" ELSE "early_start"]>>
+          \o (IF nopen > 0 THEN <<DiskEv(Len(stream))>> ELSE <<>>))
 
 \* Save.response / error / websocket_end / tcp_end / udp_end / dns_response ...: save_flow ->
-\* FilteredFlowWriter.add: write + flush (one critical section), then active_flows.discard
+\* FilteredFlowWriter.add: write + flush (one critical section), then active_flows.discard.  save_flow does not ask
+\* whether the flow is tracked: early flows and flows already written at a stop are written (again) when they finish.
+\* The flow has changed since its start hook (the response arrived): a fresh state id.
 Finish(i) ==
   /\ Live /\ mode = "stream" /\ open /\ cut = <<>> /\ ncrash = 0
-  /\ i \in 1..Len(flows) /\ flows[i].st = "active"
-  /\ flows' = [flows EXCEPT ![i].st = "finished"]
-  /\ stream' = Append(stream, [s |-> flows[i].s, t |-> flows[i].t])
+  /\ i \in 1..Len(flows) /\ flows[i].st \in {"active", "early", "stopped"}
+  /\ flows' = [flows EXCEPT ![i].st = "finished", ![i].s = nid + 1] /\ nid' = nid + 1
+  /\ stream' = Append(stream, [s |-> nid + 1, t |-> flows[i].t])
   /\ ondisk' = Len(stream) + 1
-  /\ UNCHANGED <<mode, open, cut, ncrash, nid>>
-  /\ Emit(<<[k |-> "written", s |-> flows[i].s, t |-> flows[i].t, to |-> 6 * (Len(stream) + 1)],
-            [k |-> "finished", s |-> flows[i].s, t |-> flows[i].t],
+  /\ UNCHANGED <<mode, open, nopen, cut, ncrash>>
+  /\ Emit(<<[k |-> "written", s |-> nid + 1, t |-> flows[i].t, to |-> 6 * (Len(stream) + 1)],
+            [k |-> "finished", s |-> nid + 1, t |-> flows[i].t],
             DiskEv(Len(stream) + 1)>>)
 
-\* Save.done(): write the active flows (set iteration order: the model only takes it with <= 1 active flow), close
+\* a second completion of the same flow (error after response): Save.error -> save_flow writes the flow again
+Refinish(i) ==
+  /\ Live /\ mode = "stream" /\ open /\ cut = <<>> /\ ncrash = 0
+  /\ AllowRefinish /\ i \in 1..Len(flows) /\ flows[i].st = "finished"
+  /\ flows' = [flows EXCEPT ![i].st = "finished2", ![i].s = nid + 1] /\ nid' = nid + 1
+  /\ stream' = Append(stream, [s |-> nid + 1, t |-> flows[i].t])
+  /\ ondisk' = Len(stream) + 1
+  /\ UNCHANGED <<mode, open, nopen, cut, ncrash>>
+  /\ Emit(<<[k |-> "written", s |-> nid + 1, t |-> flows[i].t, to |-> 6 * (Len(stream) + 1)],
+            [k |-> "hook", name |-> "second_completion"],
+            [k |-> "finished", s |-> nid + 1, t |-> flows[i].t],
+            DiskEv(Len(stream) + 1)>>)
+
+\* Save.done() (save_stream_file unset): write the still-active flows (set iteration order: the model only takes it
+\* with <= 1 active flow), close.  The flows written here are not finished ("stopped"): they may finish after a resume.
 Done ==
-  /\ Live /\ mode = "stream" /\ open /\ cut = <<>> /\ Len(flows) > 0 /\ ncrash = 0
+  /\ Live /\ mode = "stream" /\ open /\ cut = <<>> /\ ncrash = 0
   /\ LET act == { i \in 1..Len(flows) : flows[i].st = "active" } IN
      /\ Cardinality(act) <= 1
      /\ IF act = {} THEN /\ stream' = stream /\ flows' = flows
                          /\ Emit(<<[k |-> "hook", name |-> "done"], DiskEv(Len(stream))>>)
         ELSE LET i == CHOOSE j \in act : TRUE IN
              /\ stream' = Append(stream, [s |-> flows[i].s, t |-> flows[i].t])
-             /\ flows' = [flows EXCEPT ![i].st = "finished"]
+             /\ flows' = [flows EXCEPT ![i].st = "stopped"]
              /\ Emit(<<[k |-> "written", s |-> flows[i].s, t |-> flows[i].t, to |-> 6 * (Len(stream) + 1)],
                        [k |-> "hook", name |-> "done"], DiskEv(Len(stream) + 1)>>)
   /\ open' = FALSE /\ ondisk' = Len(stream')
-  /\ UNCHANGED <<mode, cut, ncrash, nid>>
+  /\ UNCHANGED <<mode, nopen, cut, ncrash, nid>>
 
 \* the process dies: the file holds n complete records and record n+1 up to part p
 Crash(n, p) ==
   /\ Live /\ ncrash < MaxCrash /\ Len(stream) > 0
   /\ n \in 0..Len(stream) /\ p \in Parts /\ (p # "boundary" => n < Len(stream))
   /\ cut' = <<n, p>> /\ ncrash' = ncrash + 1
-  /\ UNCHANGED <<mode, flows, stream, ondisk, open, nid>>
+  /\ UNCHANGED <<mode, flows, stream, ondisk, open, nopen, nid>>
   /\ Emit(<<[k |-> "crash", at |-> 6 * n + Code(p), part |-> p]>>)
 
 Maps(S, e) == "*" \in S \/ e \in S
@@ -102,12 +129,14 @@ Recover ==
      IN Emit(<<[k |-> "recover", ids |-> Ids(SubSeq(stream, 1, n)), end |-> end,
                 exc |-> IF end = "clean" THEN "" ELSE IF end = "fre" THEN "FlowReadException" ELSE exc]>>)
   /\ cut' = <<>>
-  /\ UNCHANGED <<mode, flows, stream, ondisk, open, ncrash, nid>>
+  /\ UNCHANGED <<mode, flows, stream, ondisk, open, nopen, ncrash, nid>>
 
 Next == \/ \E t \in Kinds : SaveAdd(t)
         \/ SaveClose
+        \/ OpenStream
         \/ \E t \in Kinds : Start(t)
         \/ \E i \in 1..MaxFlows : Finish(i)
+        \/ \E i \in 1..MaxFlows : Refinish(i)
         \/ Done
         \/ \E n \in 0..MaxFlows, p \in Parts : Crash(n, p)
         \/ Recover
